@@ -135,7 +135,7 @@ impl U2fSpec {
 }
 
 fn fb(fill: u64, tag: u64, n: usize) -> Vec<u8> {
-    Rng::new(fill, tag, 9).bytes(n)
+    Rng::new(fill, tag, 9).content(n)
 }
 
 /// Certificate / signature content as real authenticators hold it: DER SEQUENCE headers whose announced
